@@ -876,9 +876,10 @@ class CholeskySampler(object):
             dist = numpy.random.randn
         self.dist = dist
 
-        npar = mean.size
-        n1, n2 = cov.shape[0: 0 + 2]
-        if npar != cov.shape[0] or npar != cov.shape[1]:
+        # use the converted arrays: mean and cov may be sequences
+        npar = self.mean.size
+        n1, n2 = self.cov.shape[0: 0 + 2]
+        if npar != n1 or npar != n2:
             raise ValueError(
                 "mean shape [%d] inconsistent "
                 "with cov shape [%d,%d]" % (npar, n1, n2)
